@@ -15,7 +15,7 @@ def run(ctx):
     if ctx.replay:
         raise lib.ToolError("re-run the check: images are regenerated from the seed")
     rec = ctx.path("rec.ndjson")
-    lib.harness(["c12-drive", "--n", 64 if q else 1500, "--seed", ctx.seed], stdout=rec, timeout=1800)
+    lib.harness(["c12-drive", "--n", 40 if q else 1000, "--seed", ctx.seed], stdout=rec, timeout=1800)
     recs = lib.read_ndjson(rec)
     verdicts, _ = lib.judge_sharded(ctx, "image/SixelJudge", None, recs, "sixel", nshards=lib.NCPU, timeout=3400, heap="4g")
     by = {r["id"]: r for r in recs}
